@@ -71,5 +71,6 @@ pub fn fd_any() -> (BorrowedFd<'static>, i32) {
 }
 
 mod file_ops;
-mod socket_ops;
+pub mod socket_ops;
 mod vectored_ops;
+mod socket_vectored;
